@@ -8,7 +8,8 @@ from core import load_table
 
 LEVEL = 'other'
 TECHNIQUE = ('"None => diagnosed" effect analysis (greatest fixpoint over Option-returning units with a Diagnostics in scope), '
-             'must-use-on-all-paths for results of binding-evaluating functions, guard dominance in the CLI write path, literal agreement of pseudo-property names')
+             'must-use-on-all-paths for results of binding-evaluating functions, guard dominance in the CLI write path, literal agreement of pseudo-property names, '
+             'structural reading of the Diagnostics store behind has_error(), presence-only guards of the layout attribute writers')
 LEVEL_TEXT = ('Decides that no binding can vanish silently: every way an Option-returning builder (fn or closure, 74 units) can yield None '
               'is a literal None dominated by an error push on its path, the None of a callee with the same property, an error-pushing '
               'consume/map_err idiom, or a reviewed external source (no such binding; the designated deferral evaluate()? that hands the '
